@@ -246,6 +246,33 @@ VF_PROPERTY(parse_wide_non_ascii, 2, "literals from the integer / float grammars
 		c.fail(e, d);
 }
 
+// ill-formed wide text behind (or inside) a literal: "every input string" includes strings that are not valid UTF-16 / UTF-32; such a unit is no part of
+// any literal, so the outcome must be that of the same text with '?' in its place
+template <class T, class W> const char* illformed_vs_ascii(const std::string& ascii, const std::basic_string<W>& w, std::string& detail) {
+	const Res<T> a = parse<T>(ascii), b = parse<T>(w);
+	if (a.k != b.k || (a.k == KValue && !same_bits(a.v, b.v))) { detail = vf::cat(tname<T>(), " ", sizeof(W) * 8, "-bit text with ill-formed units at the '?' of ", show(ascii), ": char text:", a.k, a.k == KValue ? vf::cat("(", a.v, ")") : std::string(), " wide text:", b.k, b.k == KValue ? vf::cat("(", b.v, ")") : std::string()); return "an ill-formed code unit behind the literal changes the outcome of the conversion"; }
+	return nullptr;
+}
+VF_PROPERTY(parse_wide_ill_formed, 2, "literals from the integer / float grammars as char16_t / char32_t / wchar_t strings with ill-formed code units (lone high or low surrogates, a high surrogate as the very last unit, values above U+10FFFF) placed behind the literal, behind trailing text or inside it, into int32, uint8, int64, float, double and bool: the outcome (value or exception class) must equal that of the char text with '?' at these places; non-trivial = the last unit is ill-formed")
+{
+	std::string s = c.src.coin() ? gen_int_string(c.src) : gen_float_string(c.src); for (auto& ch : s) if (static_cast<unsigned char>(ch) >= 0x80 || ch == 0 || ch == '?') ch = '7';
+	std::string ascii; std::u16string w16; std::u32string w32; bool lastBad = false;
+	auto bad = [&] { ascii.push_back('?'); const uint64_t k = c.src.draw(4); const char16_t hi = static_cast<char16_t>(0xD800 + c.src.draw(0x400)), lo = static_cast<char16_t>(0xDC00 + c.src.draw(0x400));
+		w16.push_back(k % 2 ? hi : lo); w32.push_back(k == 0 ? static_cast<char32_t>(lo) : k == 1 ? static_cast<char32_t>(hi) : k == 2 ? static_cast<char32_t>(0x110000 + c.src.draw(0x1000)) : static_cast<char32_t>(0xFFFFFFFFu - c.src.draw(16))); lastBad = true; };
+	const size_t inside = c.src.chance(1, 3) && !s.empty() ? c.src.draw(s.size()) : s.size();
+	for (size_t i = 0; i < s.size(); i++) { if (i == inside) bad(); ascii.push_back(s[i]); w16.push_back(static_cast<unsigned char>(s[i])); w32.push_back(static_cast<unsigned char>(s[i])); lastBad = false; }
+	if (c.src.chance(3, 4)) { if (c.src.coin()) { ascii.push_back(' '); w16.push_back(u' '); w32.push_back(U' '); } bad(); if (c.src.chance(1, 4)) bad(); }
+	if (c.src.chance(1, 5)) { ascii.push_back('x'); w16.push_back(u'x'); w32.push_back(U'x'); lastBad = false; }
+	// a high surrogate followed by a low one would be a pair: keep every 16-bit offender unpaired
+	for (size_t i = 0; i + 1 < w16.size(); i++) if (w16[i] >= 0xD800 && w16[i] <= 0xDBFF && w16[i + 1] >= 0xDC00 && w16[i + 1] <= 0xDFFF) w16[i + 1] = static_cast<char16_t>(0xD800 + (w16[i + 1] & 0x3FF));
+	const std::wstring ww(w32.begin(), w32.end());
+	c.nontrivial = lastBad; c.describe(vf::cat(show(ascii), " last16=", std::hex, w16.empty() ? 0u : static_cast<unsigned>(w16.back()))); if (lastBad && !w16.empty() && w16.back() <= 0xDBFF) c.label("ends with a high surrogate");
+	std::string d; const char* e = nullptr;
+	if ((e = illformed_vs_ascii<int32_t>(ascii, w16, d)) || (e = illformed_vs_ascii<int32_t>(ascii, w32, d)) || (e = illformed_vs_ascii<int32_t>(ascii, ww, d)) || (e = illformed_vs_ascii<uint8_t>(ascii, w16, d)) || (e = illformed_vs_ascii<uint8_t>(ascii, w32, d)) || (e = illformed_vs_ascii<int64_t>(ascii, w16, d))
+		|| (e = illformed_vs_ascii<double>(ascii, w16, d)) || (e = illformed_vs_ascii<double>(ascii, w32, d)) || (e = illformed_vs_ascii<float>(ascii, w16, d)) || (e = illformed_vs_ascii<float>(ascii, ww, d)) || (e = illformed_vs_ascii<bool>(ascii, w16, d)) || (e = illformed_vs_ascii<bool>(ascii, w32, d)))
+		c.fail(e, d);
+}
+
 // a string_view is not NUL-terminated: what follows it in memory must not influence the result
 template <class T, class W> const char* subview_vs_copy(const std::basic_string<W>& s, const std::basic_string<W>& tail, std::string& detail) {
 	const std::basic_string<W> buf = s + tail; const std::basic_string_view<W> sv(buf.data(), s.size()); const Res<T> a = parse<T>(s), b = parse<T>(sv);
